@@ -56,7 +56,7 @@ pub fn structure(rng: &mut Rng, kind: usize) -> Vec<Q> {
             d.push(q);
         }
     };
-    match kind % 13 {
+    match kind % 14 {
         0 => {
             for i in 0..n {
                 push(&mut d, b(i), p(0), b((i + 1) % n), None);
@@ -165,6 +165,21 @@ pub fn structure(rng: &mut Rng, kind: usize) -> Vec<Q> {
             if rng.chance(1, 2) {
                 push(&mut d, b(0), p(0), b(1), None);
                 push(&mut d, b(1), p(0), b(0), None);
+            }
+        }
+        13 if (kind / 14) % 4 == 0 => {
+            // twins across graphs: a-x in one graph and a-y in another, b-y in the first and b-x in the second (k such pairs on a ring).
+            // From a's side x and y have the same related hash (position, predicate, first-degree hash - not the quad's graph name)
+            // without being interchangeable.
+            let k = if rng.chance(1, 6) { 3 } else { 2 };
+            let (g1, g2): (GraphName<ST>, GraphName<ST>) = match rng.below(3) {
+                0 => (Some(iri("http://ex/g")), None),
+                1 => (Some(iri("http://ex/g")), Some(iri("http://ex/h"))),
+                _ => (None, Some(iri("http://ex/g"))),
+            };
+            for i in 0..k {
+                push(&mut d, b(i), p(0), b(10 + i), g1.clone());
+                push(&mut d, b(i), p(0), b(10 + (i + 1) % k), g2.clone());
             }
         }
         _ => {
@@ -280,6 +295,26 @@ pub fn main(args: &[String]) {
     let mode = arg(args, "--mode").unwrap_or("sha");
     let mut tr = Trace::create(out);
     let mut rng = Rng::new(seed ^ 0x05);
+    // given datasets (one JSON array of quads per line) through the toy-hash instantiations: the W3C transcription judges each
+    if let Some(path) = arg(args, "--datasets") {
+        for line in std::fs::read_to_string(path).expect("datasets").lines().filter(|l| !l.trim().is_empty()) {
+            let v: Value = serde_json::from_str(line).expect("dataset line");
+            let d: Vec<Q> = v.as_array().expect("array of quads").iter().map(crate::store::json_q).collect();
+            for seedv in 0..3 {
+                let r = guarded(|| match seedv {
+                    0 => (toy::<0>(&d, rdfc10::DEFAULT_DEPTH_FACTOR, rdfc10::DEFAULT_PERMUTATION_LIMIT), toy_idmap::<0>(&d)),
+                    1 => (toy::<1>(&d, rdfc10::DEFAULT_DEPTH_FACTOR, rdfc10::DEFAULT_PERMUTATION_LIMIT), toy_idmap::<1>(&d)),
+                    _ => (toy::<2>(&d, rdfc10::DEFAULT_DEPTH_FACTOR, rdfc10::DEFAULT_PERMUTATION_LIMIT), toy_idmap::<2>(&d)),
+                });
+                match r {
+                    Ok((res, idmap)) => tr.emit(json!({"ev":"Toy","d":d.iter().map(q_json).collect::<Vec<_>>(),"seed":seedv,"depth_num":(rdfc10::DEFAULT_DEPTH_FACTOR * 2.0) as u32,"perm_limit":rdfc10::DEFAULT_PERMUTATION_LIMIT,"res":res,"idmap":idmap})),
+                    Err(m) => tr.emit(json!({"ev":"Panic","msg":m,"d":d.iter().map(q_json).collect::<Vec<_>>()})),
+                }
+            }
+        }
+        println!("events {}", tr.finish());
+        return;
+    }
     for i in 0..n {
         let d = structure(&mut rng, i);
         if mode == "sha" {
